@@ -22,7 +22,7 @@ PY
 R=$(ls /verif/.build/tinydep/debug/deps/libtinystr-*.rlib)
 cd $W
 F=""
-for f in $(echo "$VF_FEATURES" | tr ',' ' '); do F="$F --cfg feature=\"$f\""; done
+for f in $(echo "$VF_FEATURES" | tr ',' ' '); do F="$F --cfg 'feature=\"$f\"'"; done
 if [ "$which" = langid ]; then
   eval verus langid.rs --crate-type=lib --crate-name unic_langid_impl --extern tinystr=$R -L dependency=/verif/.build/tinydep/debug/deps --multiple-errors 10 $F "$@"
 else
